@@ -82,6 +82,7 @@ func rootLocal(f *eng.Fn, e ast.Expr) *types.Var {
 func runC01(p *eng.Prog, r *eng.Report, tier string) {
 	c := &cx{p, r, tier}
 	callerSlicesNotRewritten(c, "C01.16", negSet(c, "C01.16"))
+	depthCountersDoNotWrap(c, "C01.20")
 	c01CachedMandatoryFlag(c, "C01.17")
 	c01FeaturesConfiguredPerStep(c, "C01.18")
 	c01FeatureMatchedByName(c, "C01.19")
